@@ -91,7 +91,7 @@ Definition suffix (e : expr) (r : list tok) : res :=
 (* parseTernary's test `isIdentOrTypeToken(peek(1)) && checkPositionIs(2, VARIABLE)` (nullable type) *)
 Definition nullable_pattern (r : list tok) : bool :=
   match r with
-  | (TIdent _ | TAtom (ANum _ _) | TAtom (AStr _) | TAtom ANull | TAtom AFalse) :: TAtom (AVar _) :: _ => true
+  | (TIdent _ | TAtom ANull | TAtom AFalse) :: TAtom (AVar _) :: _ => true      (* literals excluded by fix 91a42b7 *)
   | _ => false
   end.
 
